@@ -6,8 +6,10 @@ package raft
 //
 // One RaftBackend per process. Plain writes and Commit calls are goroutines (they block until the FSM has
 // applied their entry); the harness owns the schedule through the FSM apply gate (SetFSMApplyCallback): every
-// FSM.ApplyBatch parks until the harness releases it. Each started write is waited for until raft has committed
-// it and handed it to the FSM queue, so the log order equals the action order and every batch holds one entry.
+// FSM.ApplyBatch parks until the harness releases it. A single started write is waited for until raft has committed
+// it and handed it to the FSM queue (log order = action order, one entry per batch); a "burst" starts 2..4 writes /
+// commits behind a held log store so that raft group-commits them into ONE multi-entry FSM batch (their order
+// is read back from the log store).
 // Oracle: after quiescence the raft log store is read front to back, every LogData is decoded and replayed on
 // a map (always-verify semantics); see c08Judge.
 
@@ -18,6 +20,7 @@ import (
 	"fmt"
 	"os"
 	"regexp"
+	"runtime"
 	"sort"
 	"strconv"
 	"strings"
@@ -62,11 +65,45 @@ func (g *c08Gate) callback() {
 	g.parked.Add(-1)
 }
 
+// ---- log store gate: a slow disk. While it holds, raft's leader loop sits in StoreLogs and the writes
+// started meanwhile pile up in raft's apply channel; on release raft group-commits them and hands them to the
+// FSM as ONE batch.
+
+type c08GatedLogStore struct {
+	raft.LogStore
+	hold    atomic.Bool
+	waiting atomic.Int32
+	release chan struct{}
+}
+
+func (s *c08GatedLogStore) StoreLog(l *raft.Log) error { return s.StoreLogs([]*raft.Log{l}) }
+
+func (s *c08GatedLogStore) StoreLogs(logs []*raft.Log) error {
+	if s.hold.Load() {
+		s.waiting.Add(1)
+		<-s.release
+		s.waiting.Add(-1)
+	}
+	return s.LogStore.StoreLogs(logs)
+}
+
+func (s *c08GatedLogStore) letGo() {
+	s.hold.Store(false)
+	for s.waiting.Load() > 0 {
+		select {
+		case s.release <- struct{}{}:
+		default:
+		}
+		c08Spin(20 * time.Microsecond)
+	}
+}
+
 // ---- backend
 
 type c08Env struct {
 	b      *RaftBackend
 	gate   *c08Gate
+	store  *c08GatedLogStore
 	caseNo int
 }
 
@@ -89,6 +126,8 @@ func c08NewEnv(t *testing.T) *c08Env {
 		t.Fatalf("harness: NewRaftBackend: %v", err)
 	}
 	b := raw.(*RaftBackend)
+	store := &c08GatedLogStore{LogStore: b.logStore, release: make(chan struct{})}
+	b.logStore = store
 	if err := b.Bootstrap([]Peer{{ID: b.NodeID(), Address: b.NodeID()}}); err != nil {
 		t.Fatalf("harness: bootstrap: %v", err)
 	}
@@ -102,6 +141,7 @@ func c08NewEnv(t *testing.T) *c08Env {
 	g.open.Store(true)
 	b.SetFSMApplyCallback(g.callback)
 	t.Cleanup(func() {
+		store.letGo()
 		g.open.Store(true)
 		for i := 0; i < 64; i++ {
 			select {
@@ -112,7 +152,7 @@ func c08NewEnv(t *testing.T) *c08Env {
 		_ = b.TeardownCluster(nil)
 		_ = b.Close()
 	})
-	e := &c08Env{b: b, gate: g}
+	e := &c08Env{b: b, gate: g, store: store}
 	if !c08Until(func() bool { return b.raft.AppliedIndex() >= 2 }) {
 		t.Fatalf("harness: raft did not come up")
 	}
@@ -146,7 +186,7 @@ func c08Until(f func() bool) bool {
 // ---- action specs (state independent, so that rapid can delete actions when shrinking)
 
 type c08Action struct {
-	Kind  int // 0 start put, 1 start delete, 2 begin, 3 tx get, 4 tx put, 5 tx delete, 6 tx list, 7 start commit, 8 release one batch, 9 quiesce, 10 rollback, 11 use finished txn, 12 next step of a transaction's script
+	Kind  int // 0 start put, 1 start delete, 2 begin, 3 tx get, 4 tx put, 5 tx delete, 6 tx list, 7 start commit, 8 release one batch, 9 quiesce, 10 rollback, 11 use finished txn, 12 next step of a transaction's script, 13 burst (group commit: several entries in one FSM batch)
 	Key   int
 	Val   int
 	Slot  int
@@ -157,9 +197,11 @@ type c08Action struct {
 	// begin only: the transaction's script
 	Script      []c08Action
 	EndRollback bool
+	// burst only: 2..4 plain writes / commits started back to back behind a held log store
+	Items []c08Action
 }
 
-var c08KindNames = []string{"put", "delete", "begin", "tx-get", "tx-put", "tx-delete", "tx-list", "commit", "release", "quiesce", "rollback", "use-finished", "step"}
+var c08KindNames = []string{"put", "delete", "begin", "tx-get", "tx-put", "tx-delete", "tx-list", "commit", "release", "quiesce", "rollback", "use-finished", "step", "burst"}
 
 func c08TxOpGen() *rapid.Generator[c08Action] {
 	kinds := []int{3, 6, 3, 4, 3, 5, 6, 4}
@@ -180,7 +222,7 @@ func c08TxOpGen() *rapid.Generator[c08Action] {
 func c08ActionGen() *rapid.Generator[c08Action] {
 	// weights
 	// rapid draws small indexes more often: most wanted first
-	kinds := []int{2, 12, 0, 12, 2, 0, 12, 8, 12, 0, 2, 12, 0, 12, 8, 2, 12, 0, 12, 8, 0, 12, 1, 3, 4, 6, 7, 9, 10, 11}
+	kinds := []int{2, 12, 0, 13, 12, 2, 0, 12, 8, 13, 12, 0, 2, 12, 13, 0, 12, 8, 2, 12, 0, 12, 8, 13, 0, 12, 1, 3, 4, 6, 7, 9, 10, 11}
 	return rapid.Custom(func(t *rapid.T) c08Action {
 		a := c08Action{Kind: kinds[rapid.IntRange(0, len(kinds)-1).Draw(t, "kind")]}
 		switch a.Kind {
@@ -207,6 +249,17 @@ func c08ActionGen() *rapid.Generator[c08Action] {
 			a.Limit = rapid.IntRange(0, len(c08Limits)-1).Draw(t, "limit")
 		case 7, 10, 11, 12:
 			a.Slot = rapid.IntRange(0, 2).Draw(t, "slot")
+		case 13:
+			a.Items = rapid.SliceOfN(rapid.Custom(func(t *rapid.T) c08Action {
+				it := c08Action{Kind: []int{0, 7, 0, 7, 1}[rapid.IntRange(0, 4).Draw(t, "item")]}
+				if it.Kind == 7 {
+					it.Slot = rapid.IntRange(0, 2).Draw(t, "slot")
+				} else {
+					it.Key = rapid.IntRange(0, len(c08Keys)-1).Draw(t, "key")
+					it.Val = rapid.IntRange(0, len(c08Values)-1).Draw(t, "val")
+				}
+				return it
+			}), 2, 4).Draw(t, "burst")
 		}
 		return a
 	})
@@ -413,18 +466,18 @@ type c08Run struct {
 	caughtUpOnly bool
 	failed       string
 	base         uint64 // raft's last index when the case began
+	batches      []c08Batch
+}
+
+// c08Batch is one FSM.ApplyBatch call as observed through the FSM's latest index: it covered the command
+// entries with Lo < index <= Hi.
+type c08Batch struct {
+	Lo, Hi uint64
+	N      int
 }
 
 func (r *c08Run) tracef(format string, a ...any) {
 	r.trace = append(r.trace, fmt.Sprintf(format, a...))
-}
-
-func (r *c08Run) lag() uint64 {
-	ra, fa := r.b.raft.AppliedIndex(), r.b.AppliedIndex()
-	if ra < fa {
-		return 0
-	}
-	return ra - fa
 }
 
 // startLogged runs f in a goroutine and waits until raft has committed its entry and queued it for the FSM.
@@ -467,16 +520,17 @@ func (r *c08Run) startLogged(op *c08Op, f func() error) bool {
 }
 
 // settle pops every pending op the FSM has applied and joins its goroutine.
-func (r *c08Run) settle() bool {
+func (r *c08Run) settle() (popped int, ok bool) {
 	fi := r.b.AppliedIndex()
 	for len(r.pending) > 0 && r.pending[0].Index <= fi {
+		popped++
 		op := r.pending[0]
 		r.pending = r.pending[1:]
 		select {
 		case <-op.done:
 		case <-time.After(c08Wait):
 			r.failed = fmt.Sprintf("timeout: %s %s @%d applied by the FSM but the caller did not return", op.Kind, op.Key, op.Index)
-			return false
+			return popped, false
 		}
 		op.joined = true
 		if op.Txn != nil {
@@ -484,7 +538,7 @@ func (r *c08Run) settle() bool {
 			op.Txn.CommitErr = op.err
 		}
 	}
-	return true
+	return popped, true
 }
 
 func (r *c08Run) releaseOne() bool {
@@ -492,6 +546,7 @@ func (r *c08Run) releaseOne() bool {
 		return true
 	}
 	target := r.pending[0].Index
+	lo := r.b.AppliedIndex()
 	if !c08Until(func() bool { return r.env.gate.parked.Load() > 0 || r.b.AppliedIndex() >= target }) {
 		r.failed = "timeout waiting for the FSM to reach the gate"
 		return false
@@ -503,7 +558,226 @@ func (r *c08Run) releaseOne() bool {
 		r.failed = fmt.Sprintf("timeout waiting for the FSM to apply @%d", target)
 		return false
 	}
-	return r.settle()
+	n, ok := r.settle()
+	r.batches = append(r.batches, c08Batch{Lo: lo, Hi: r.b.AppliedIndex(), N: n})
+	return ok
+}
+
+// c08Spin waits a short time without time.Sleep (whose granularity is about a millisecond).
+func c08Spin(d time.Duration) {
+	for t0 := time.Now(); time.Since(t0) < d; {
+		runtime.Gosched()
+	}
+}
+
+var c08StackBuf = make([]byte, 2<<20)
+
+// c08WaitParked waits until the goroutine that published its id in gid is blocked in a channel receive (for the
+// operations started here: waiting for the raft apply future), or has finished.
+func c08WaitParked(gid *atomic.Int64, done chan struct{}) bool {
+	return c08Until(func() bool {
+		select {
+		case <-done:
+			return true
+		default:
+		}
+		id := gid.Load()
+		if id == 0 {
+			return false
+		}
+		n := runtime.Stack(c08StackBuf, true)
+		needle := []byte(fmt.Sprintf("goroutine %d [", id))
+		buf := c08StackBuf[:n]
+		i := bytes.Index(buf, needle)
+		for i > 0 && buf[i-1] != '\n' {
+			j := bytes.Index(buf[i+1:], needle)
+			if j < 0 {
+				return false
+			}
+			i += 1 + j
+		}
+		if i < 0 {
+			return false
+		}
+		return bytes.HasPrefix(buf[i+len(needle):], []byte("chan receive"))
+	})
+}
+
+func c08OverlayKey(start uint64, ov map[string]*string) string {
+	ks := make([]string, 0, len(ov))
+	for k, v := range ov {
+		if v == nil {
+			ks = append(ks, k+"=<del>")
+		} else {
+			ks = append(ks, k+"="+*v)
+		}
+	}
+	sort.Strings(ks)
+	return fmt.Sprint(start, ks)
+}
+
+// burst starts several writes / commits back to back while the log store holds raft's leader loop (inside the
+// StoreLogs of a raft barrier entry, which never reaches the FSM), lets go, and waits until raft has committed all
+// of them: raft group-commits what piled up and the FSM receives it as one batch. The order inside the burst is
+// whatever raft made of it: it is read back from the log store.
+func (r *c08Run) burst(ai int, items []c08Action) {
+	b, ctx := r.b, context.Background()
+	type planned struct {
+		op *c08Op
+		f  func() error
+	}
+	var plan []planned
+	seen := map[string]bool{}
+	for _, it := range items {
+		switch it.Kind {
+		case 0, 1:
+			op := &c08Op{Kind: "put", Key: r.prefix + c08Keys[it.Key], Val: []byte(c08Values[it.Val])}
+			if it.Kind == 1 {
+				op.Kind, op.Val = "delete", nil
+			}
+			// identical writes could not be told apart when the burst is read back from the log
+			k := fmt.Sprintf("%s %s=%q", op.Kind, op.Key, op.Val)
+			if seen[k] {
+				continue
+			}
+			seen[k] = true
+			plan = append(plan, planned{op, func() error {
+				if op.Kind == "put" {
+					return b.Put(ctx, &physical.Entry{Key: op.Key, Value: op.Val})
+				}
+				return b.Delete(ctx, op.Key)
+			}})
+		case 7:
+			var cands []*c08Txn
+			for _, x := range r.slots {
+				if x != nil && x.State == 0 && !x.RO && x.Wrote {
+					cands = append(cands, x)
+				}
+			}
+			if len(cands) == 0 {
+				continue
+			}
+			t := cands[it.Slot%len(cands)]
+			// two commit entries of one burst must be tellable apart when they are read back from the log
+			k := c08OverlayKey(t.Start, t.overlay)
+			if seen[k] {
+				continue
+			}
+			seen[k] = true
+			op := &c08Op{Kind: "commit", Txn: t, Key: fmt.Sprintf("T%d", t.ID)}
+			t.Committed, t.Finish, t.State, t.commit = true, "commit", 1, op
+			plan = append(plan, planned{op, func() error { return t.tx.Commit(ctx) }})
+		}
+	}
+	if len(plan) == 0 {
+		return
+	}
+	st := r.env.store
+	before := b.raft.AppliedIndex()
+	st.hold.Store(true)
+	bf := b.raft.Barrier(0)
+	r.wg.Add(1)
+	go func() { defer r.wg.Done(); _ = bf.Error() }()
+	if !c08Until(func() bool { return st.waiting.Load() > 0 }) {
+		st.letGo()
+		r.failed = "timeout waiting for raft to reach the held log store"
+		return
+	}
+	for _, pl := range plan {
+		op, f := pl.op, pl.f
+		op.done = make(chan struct{})
+		var gid atomic.Int64
+		r.wg.Add(1)
+		go func() {
+			defer r.wg.Done()
+			defer close(op.done)
+			gid.Store(verifx.GoID())
+			op.err = f()
+		}()
+		// The next one starts only when this one waits for its apply future, i.e. sits in raft's apply channel:
+		// the order inside the burst and the batch raft forms are then the same in every run of the same case.
+		if !c08WaitParked(&gid, op.done) {
+			st.letGo()
+			r.failed = fmt.Sprintf("timeout waiting for %s %s to reach raft's apply channel", op.Kind, op.Key)
+			return
+		}
+	}
+	st.letGo()
+	want := before + 1 + uint64(len(plan))
+	if !c08Until(func() bool { return b.raft.AppliedIndex() >= want }) {
+		r.failed = fmt.Sprintf("timeout waiting for raft to commit a burst of %d", len(plan))
+		return
+	}
+	// read the burst back
+	for idx := before + 1; idx <= want; idx++ {
+		var l raft.Log
+		if err := b.logStore.GetLog(idx, &l); err != nil {
+			r.failed = fmt.Sprintf("GetLog(@%d): %v", idx, err)
+			return
+		}
+		if l.Type != raft.LogCommand {
+			continue
+		}
+		ld := &LogData{}
+		if err := proto.Unmarshal(l.Data, ld); err != nil || len(ld.Operations) == 0 {
+			r.failed = fmt.Sprintf("decode @%d: %v", idx, err)
+			return
+		}
+		ops := ld.Operations
+		var hit *c08Op
+		for _, pl := range plan {
+			op := pl.op
+			if op.Index != 0 {
+				continue
+			}
+			if ops[0].OpType == beginTxOp {
+				if op.Kind != "commit" {
+					continue
+				}
+				bp, err := parseBeginTxOpValue(ops[0].Value)
+				if err != nil || bp.Index != op.Txn.Start {
+					continue
+				}
+				got := map[string]*string{}
+				for _, o := range ops {
+					switch o.OpType {
+					case putOp:
+						v := string(o.Value)
+						got[o.Key] = &v
+					case deleteOp:
+						got[o.Key] = nil
+					}
+				}
+				if c08OverlayKey(bp.Index, got) == c08OverlayKey(op.Txn.Start, op.Txn.overlay) {
+					hit = op
+				}
+			} else if len(ops) == 1 && ops[0].Key == op.Key &&
+				((op.Kind == "put" && ops[0].OpType == putOp && bytes.Equal(ops[0].Value, op.Val)) || (op.Kind == "delete" && ops[0].OpType == deleteOp)) {
+				hit = op
+			}
+			if hit != nil {
+				break
+			}
+		}
+		if hit == nil {
+			r.failed = fmt.Sprintf("burst entry @%d matches no started operation", idx)
+			return
+		}
+		hit.Index = idx
+	}
+	sort.SliceStable(plan, func(i, j int) bool { return plan[i].op.Index < plan[j].op.Index })
+	var desc []string
+	for _, pl := range plan {
+		if pl.op.Index == 0 {
+			r.failed = fmt.Sprintf("burst operation %s %s has no log entry", pl.op.Kind, pl.op.Key)
+			return
+		}
+		pl.op.Seq = len(r.ops)
+		r.ops = append(r.ops, pl.op)
+		r.pending = append(r.pending, pl.op)
+		desc = append(desc, fmt.Sprintf("%s %s=%q -> @%d", pl.op.Kind, pl.op.Key, pl.op.Val, pl.op.Index))
+	}
+	r.tracef("%d: burst behind barrier @%d: %s (fsm@%d)", ai, before+1, strings.Join(desc, "; "), b.AppliedIndex())
 }
 
 func (r *c08Run) drain() bool {
@@ -512,12 +786,13 @@ func (r *c08Run) drain() bool {
 			return false
 		}
 	}
-	return c08Until(func() bool { return r.b.AppliedIndex() == r.b.raft.AppliedIndex() })
+	return true
 }
 
 func (r *c08Run) cleanup() {
 	// runs on every exit path, including a rapid panic out of a draw
 	g := r.env.gate
+	r.env.store.letGo()
 	g.open.Store(true)
 	dl := time.Now().Add(c08Wait)
 	for {
@@ -544,7 +819,7 @@ func (r *c08Run) cleanup() {
 			t.State = 2
 		}
 	}
-	c08Until(func() bool { return g.parked.Load() == 0 && r.b.AppliedIndex() == r.b.raft.AppliedIndex() })
+	c08Until(func() bool { return g.parked.Load() == 0 })
 	// drop stale tokens, close the gate again for the next case
 	for {
 		select {
@@ -565,7 +840,7 @@ func c08ID() string {
 
 func TestVerif_C08_RaftLive(t *testing.T) {
 	rec := verifx.NewRecorder(c08ID(), "raft-live",
-		"one live single-node RaftBackend per process; per case <= 30 actions over 5 keys in 2 directories under a fresh key prefix: start async put/delete, begin (read-write or read-only) transaction in one of 3 slots, transaction get/put/delete/list-page, start async commit, rollback, release one FSM batch, quiesce; the FSM apply gate parks every batch so the FSM lags raft's applied index by the generated number of batches; class caught-up = transactions begin only after the queue was drained; oracle = replay of the raft log store; non-trivial = a transaction began while the FSM was >= 1 batch behind raft's applied index and its commit entry follows >= 1 write to something it observed")
+		"one live single-node RaftBackend per process; per case <= 30 actions over 5 keys in 2 directories under a fresh key prefix: start async put/delete, begin (read-write or read-only) transaction in one of 3 slots, transaction get/put/delete/list-page, start async commit, rollback, burst (2..4 puts/deletes/commits started behind a held log store so that raft hands them to the FSM as one multi-entry batch), release one FSM batch, quiesce; the FSM apply gate parks every batch so the FSM lags raft's applied index by the generated number of batches; class caught-up = transactions begin only after the queue was drained; oracle = replay of the raft log store; non-trivial = a transaction began while the FSM was >= 1 batch behind raft's applied index and its commit entry follows >= 1 write to something it observed, or a commit entry reached the FSM in one batch behind a write to something the transaction observed")
 	defer rec.Flush()
 	env := c08NewEnv(t)
 	ctx := context.Background()
@@ -586,8 +861,19 @@ func TestVerif_C08_RaftLive(t *testing.T) {
 		env.caseNo++
 		r := &c08Run{rt: rt, env: env, b: env.b, prefix: fmt.Sprintf("c%d/", env.caseNo), caughtUpOnly: caughtUpOnly}
 		b := env.b
-		if !c08Until(func() bool { return b.AppliedIndex() == b.raft.AppliedIndex() }) {
+		// the previous case joined all its goroutines; the FSM index may trail raft's by barrier entries only
+		if !c08Until(func() bool { return env.gate.parked.Load() == 0 && env.store.waiting.Load() == 0 }) {
 			rt.Fatalf("harness: backend not quiescent at case start")
+		}
+		if b.AppliedIndex() != b.raft.LastIndex() {
+			// a barrier entry of the previous case is the last log entry: level the indexes with a write outside
+			// every case prefix, so that reported index offsets do not depend on the process history
+			if err := b.Put(ctx, &physical.Entry{Key: "level", Value: []byte("x")}); err != nil {
+				rt.Fatalf("harness: levelling put: %v", err)
+			}
+			if !c08Until(func() bool { return b.AppliedIndex() == b.raft.LastIndex() }) {
+				rt.Fatalf("harness: FSM index does not reach raft's last index")
+			}
 		}
 		caseStart := b.raft.LastIndex()
 		r.base = caseStart
@@ -630,6 +916,10 @@ func TestVerif_C08_RaftLive(t *testing.T) {
 				t.pc++
 				return exec(ai, next, t)
 			}
+			if a.Kind == 13 {
+				r.burst(ai, a.Items)
+				return false
+			}
 			switch a.Kind {
 			case 0, 1:
 				op := &c08Op{Kind: "put", Key: r.prefix + c08Keys[a.Key], Val: []byte(c08Values[a.Val])}
@@ -671,9 +961,7 @@ func TestVerif_C08_RaftLive(t *testing.T) {
 					rt.Fatalf("harness: BeginTx: %v", err)
 				}
 				nt.Start = nt.tx.(*RaftTransaction).index
-				if nt.RaftApplied > nt.Start {
-					nt.Lag = nt.RaftApplied - nt.Start
-				}
+				nt.Lag = uint64(len(r.pending)) // entries raft has committed and queued which the FSM has not applied
 				if nt.Lag > maxLagAtBegin {
 					maxLagAtBegin = nt.Lag
 				}
@@ -975,6 +1263,7 @@ func c08Judge(rt *rapid.T, rec *verifx.Recorder, r *c08Run, caseStart uint64, ca
 	}
 	nontrivial := false
 	conflictsSeen, commitsSeen, unsat := 0, 0, 0
+	sameBatchCases, sameBatchAtStart := 0, 0
 	for k, e := range entries {
 		op := r.ops[k]
 		line := c08DescribeEntry(e)
@@ -1020,13 +1309,41 @@ func c08Judge(rt *rapid.T, rec *verifx.Recorder, r *c08Run, caseStart uint64, ca
 		if len(changed) > 0 && t.Lag >= 1 {
 			nontrivial = true
 		}
+		// Did the FSM receive this commit entry in one batch together with an earlier write to something the
+		// transaction observed (observation intact when the batch began, changed at the entry's position)?
+		sameBatch, batchFollowsStart := false, false
+		for _, bt := range r.batches {
+			if bt.N < 2 || e.Index <= bt.Lo || e.Index > bt.Hi {
+				continue
+			}
+			atBatch := stateAt(bt.Lo)
+			for _, o := range t.Obs {
+				if c08Expect(o, atBatch) == o.got() && c08Expect(o, cur) != o.got() {
+					sameBatch = true
+					batchFollowsStart = bt.Lo == t.Start
+				}
+			}
+		}
+		if sameBatch {
+			nontrivial = true
+			sameBatchCases++
+			line += " [behind a conflicting write in the same FSM batch]"
+			logLines[len(logLines)-1] = line
+			if batchFollowsStart {
+				sameBatchAtStart++
+			}
+		}
 		extra := map[string]any{"txn": t.ID, "entry": line, "start_index": fmt.Sprintf("@%d", t.Start), "raft_applied_at_begin": fmt.Sprintf("@%d", t.RaftApplied), "lag_at_begin": t.Lag,
 			"changed_observations": changed, "always_verify": av, "always_verify_mismatch": why}
 		switch {
 		case actualCommit && len(changed) > 0 && !av:
-			if t.Lag >= 1 {
+			if sameBatch {
+				flag("commit-behind-conflicting-write-in-same-batch-not-verified", extra,
+					"T%d (start @%d) observed %v; the conflicting write and its commit entry @%d reached the FSM in one batch, the entry was applied without verification and Commit returned nil",
+					t.ID, t.Start, changed, e.Index)
+			} else if t.Lag >= 1 {
 				flag("txn-start-behind-applied-index-not-verified", extra,
-					"T%d began at FSM index @%d while raft's applied index was @%d (%d batches queued), observed %v; its commit entry @%d was applied without verification and Commit returned nil",
+					"T%d began at FSM index @%d while raft's applied index was @%d (%d entries queued for the FSM), observed %v; its commit entry @%d was applied without verification and Commit returned nil",
 					t.ID, t.Start, t.RaftApplied, t.Lag, changed, e.Index)
 			} else {
 				flag("stale-observation-committed", extra, "T%d (begun with the FSM caught up at @%d) observed %v; Commit @%d returned nil", t.ID, t.Start, changed, e.Index)
@@ -1155,6 +1472,28 @@ func c08Judge(rt *rapid.T, rec *verifx.Recorder, r *c08Run, caseStart uint64, ca
 	rec.Case(fmt.Sprintf("caughtUpOnly=%v %s", caughtUpOnly, lagClass), nontrivial, digest, func() any { return render() })
 	if commitsSeen > 0 {
 		rec.Class("cases-with-commit", 1)
+	}
+	multi := false
+	for _, bt := range r.batches {
+		switch {
+		case bt.N >= 3:
+			rec.Class("fsm-batches-of-3+", 1)
+			multi = true
+		case bt.N == 2:
+			rec.Class("fsm-batches-of-2", 1)
+			multi = true
+		default:
+			rec.Class("fsm-batches-of-1", 1)
+		}
+	}
+	if multi {
+		rec.Class("cases-with-multi-entry-batch", 1)
+	}
+	if sameBatchCases > 0 {
+		rec.Class("cases-with-txn-behind-conflicting-write-in-same-batch", 1)
+	}
+	if sameBatchAtStart > 0 {
+		rec.Class("cases-with-txn-behind-conflicting-write-in-the-batch-right-after-its-start", 1)
 	}
 	if conflictsSeen > 0 {
 		rec.Class("cases-with-conflict", 1)
